@@ -491,7 +491,8 @@ example : ∃ sched r, sched.length ≤ 6 ∧
     ⟨ConfigUniform.Example.exC_wellFormed.trav, ConfigUniform.Example.exC_wellFormed.noAccess,
       ConfigUniform.Example.exC_wellFormed.noTurn, ConfigUniform.Example.exC_wellFormed.slot,
       ConfigUniform.Example.exC_wellFormed.cost_range,
-      ConfigUniform.Example.exC_wellFormed.frontier_total⟩
+      ConfigUniform.Example.exC_wellFormed.frontier_total,
+      ConfigUniform.Example.exC_wellFormed.gc_nonneg⟩
   have G0 := ConfigUniform.Example.exC_graphOK 0 (by decide) true
   have G : c.GraphOK 0 true := ⟨G0.adj, G0.inc_range, G0.gc_source, G0.gc_range⟩
   obtain ⟨⟨sched, hlen, _, hiff⟩, _⟩ := dijkstra_decides_reachability c W (source := 0) (t := 3) G rfl
